@@ -286,11 +286,20 @@ func main() {
 		var rp struct {
 			Case struct {
 				Detail struct {
-					Workload workload `json:"workload"`
+					Workload workload      `json:"workload"`
+					Site     *siteScenario `json:"site"`
 				} `json:"detail"`
 			} `json:"case"`
 		}
 		b, err := os.ReadFile(f.Replay)
+		if err == nil && json.Unmarshal(b, &rp) == nil && rp.Case.Detail.Site != nil {
+			siteProc := gen.StartIxsLineProc(bin, "ZOEKT_VERIF_DRIVER=c31")
+			for i := 0; i < 5; i++ {
+				runSite(w, siteProc, *rp.Case.Detail.Site, "replay")
+			}
+			siteProc.Close()
+			return
+		}
 		if err == nil && json.Unmarshal(b, &rp) == nil && len(rp.Case.Detail.Workload) > 0 {
 			for i := 0; i < 200; i++ { // schedules are not reproducible: run the same workload many times
 				run(rp.Case.Detail.Workload, i, gen.Detail(map[string]any{"workload": rp.Case.Detail.Workload}), "replay")
@@ -299,9 +308,150 @@ func main() {
 		return
 	}
 	r := gen.NewRand(f.Seed)
+	siteProc := gen.StartIxsLineProc(bin, "ZOEKT_VERIF_DRIVER=c31")
+	for i, sc := range siteScenarios(r.Fork(), f.Tier == "thorough") {
+		runSite(w, siteProc, sc, fmt.Sprintf("site scenario %d", i))
+	}
+	siteProc.Close()
 	n := f.N(1500, 12000)
 	for i := 0; i < n; i++ {
 		wl := genWorkload(r, i%5 == 4)
 		run(wl, i, gen.Detail(map[string]any{"workload": wl}), fmt.Sprintf("workload %d", i))
 	}
+}
+
+// ---------- call sites: the operations of the server themselves (index jobs, data deletion) ----------
+
+// siteScenario: holder H is parked inside its critical section through a gate that needs no source change (the fake
+// Sourcegraph's UpdateIndexStatus for index jobs, the request context for DeleteAllData); then contender C is started.
+type siteScenario struct {
+	MT   int    // 1 = multi-tenant instance (WORKSPACES_API_URL set: shards are named by tenant and repository id)
+	H, C string // q:<repo> queue worker, f:<repo> forced re-index, d:<tenant>:<k> data deletion parked at its k-th pass,
+	// m:0 a merge run (Server.merge), v:0 a vacuum run (Server.vacuum)
+}
+
+func siteKind(op string) (kind byte, id int) {
+	p := strings.Split(op, ":")
+	id, _ = strconv.Atoi(p[1])
+	return op[0], id
+}
+
+func siteLeanOp(op string) string {
+	k, id := siteKind(op)
+	if k == 'd' || k == 'm' || k == 'v' {
+		return "G"
+	}
+	return fmt.Sprintf("W%d", id)
+}
+
+func runSite(w *gen.Writer, proc *gen.IxsLineProc, sc siteScenario, tag string) {
+	const wait = 200
+	cmd := fmt.Sprintf("sites mt=%d wait=%d H=%s C=%s", sc.MT, wait, sc.H, sc.C)
+	detail := gen.Detail(map[string]any{"site": sc})
+	ans, ok := proc.Do(cmd)
+	if !ok || strings.HasPrefix(ans, "ERR") {
+		w.Emit(gen.Case{Go: tag + ": driver died or rejected: " + ans, Key: "driver-died", Detail: detail})
+		fmt.Fprintln(os.Stderr, "driver died:", cmd, ans)
+		os.Exit(4)
+	}
+	kv := map[string]string{}
+	for _, f := range strings.Fields(ans) {
+		if i := strings.IndexByte(f, '='); i > 0 {
+			kv[f[:i]] = f[i+1:]
+		}
+	}
+	hk, hid := siteKind(sc.H)
+	ck, cid := siteKind(sc.C)
+	isGlobal := func(k byte) bool { return k == 'd' || k == 'm' || k == 'v' }
+	global := isGlobal(hk) || isGlobal(ck)
+	conflict := global || hid == cid
+	hIn, cPause, cLater := kv["H"] == "1", kv["Cpause"] == "1", kv["Clater"] == "1"
+	// oracle, from the statement alone
+	verdict := ""
+	switch {
+	case !hIn || kv["Hdone"] != "1":
+		verdict = "site-holder-never-inside-or-stuck"
+	case conflict && cPause && global:
+		verdict = "site-operation-runs-beside-a-global-operation"
+	case conflict && cPause:
+		verdict = "site-two-index-jobs-for-one-repository"
+	case !global && conflict && (cLater || (ck == 'f' && kv["Cret"] != "skipped")):
+		verdict = "site-skip-not-reported-as-skipped"
+	case global && !cLater:
+		verdict = "site-contender-never-ran-after-the-global-operation"
+	case kv["left"] != "0" || kv["free"] != "1":
+		verdict = "site-not-quiescent"
+	}
+	if !conflict && !cPause {
+		w.Count("sites-independent-operations-serialised", 1)
+	}
+	// the same observation as a trace of two goroutines for the Lean model and statement
+	ret := func(g int, op string) string {
+		if isGlobal(op[0]) {
+			return fmt.Sprintf("r%d", g)
+		}
+		return fmt.Sprintf("t%d", g)
+	}
+	ev := []string{"c0:" + siteLeanOp(sc.H), "b0", "c1:" + siteLeanOp(sc.C)}
+	switch {
+	case cPause:
+		ev = append(ev, "b1", "e0", ret(0, sc.H), "e1", ret(1, sc.C))
+	case cLater:
+		ev = append(ev, "e0", ret(0, sc.H), "b1", "e1", ret(1, sc.C))
+	case isGlobal(ck):
+		ev = append(ev, "e0", ret(0, sc.H)) // the global operation never got going: reported by the oracle above
+	default:
+		ev = append(ev, "e0", ret(0, sc.H), "f1")
+	}
+	c := gen.Case{In: "trace 2 " + strings.Join(ev, ","), Impl: fmt.Sprintf("admitted left=%s free=%s", kv["left"], kv["free"]),
+		Class: fmt.Sprintf("site-%c-vs-%c", hk, ck), Nontrivial: conflict, Detail: detail}
+	if verdict != "" {
+		c.Go, c.Key = fmt.Sprintf("%s: %s (driver: %s)", tag, verdict, ans), verdict
+	}
+	w.Emit(c)
+	if hk == 'd' || ck == 'd' {
+		w.Count("sites-data-deletion-passes-seen:"+kv["touches"], 1)
+	}
+}
+
+func siteScenarios(r *gen.Rand, thorough bool) []siteScenario {
+	var out []siteScenario
+	for mt := 0; mt <= 1; mt++ {
+		for _, p := range [][2]string{
+			{"q:3", "f:3"}, {"f:3", "q:3"}, {"f:4", "f:4"}, {"q:4", "q:4"}, // two index jobs for one repository
+			{"q:3", "f:4"}, {"f:3", "f:4"}, // independent repositories
+			{"d:1:2", "f:3"}, {"d:1:3", "f:3"}, {"d:1:4", "f:3"}, {"d:2:3", "q:4"}, {"d:2:4", "q:4"}, {"d:2:4", "d:1:2"}, // a global operation is running
+			{"q:3", "d:1:2"}, {"f:4", "d:2:2"}, // a global operation arrives while an index job runs
+			{"m:0", "f:3"}, {"v:0", "q:3"}, {"f:3", "m:0"}, {"q:4", "v:0"}, {"m:0", "v:0"}, {"v:0", "d:1:2"}, {"d:1:3", "m:0"}, {"d:2:4", "v:0"}, // merge and vacuum
+		} {
+			out = append(out, siteScenario{MT: mt, H: p[0], C: p[1]})
+		}
+	}
+	extra := 0
+	if thorough {
+		extra = 150
+	}
+	op := func() string {
+		switch r.Intn(5) {
+		case 3:
+			return "m:0"
+		case 4:
+			return "v:0"
+		case 0:
+			return fmt.Sprintf("q:%d", r.Range(3, 5))
+		case 1:
+			return fmt.Sprintf("f:%d", r.Range(3, 5))
+		}
+		return fmt.Sprintf("d:%d:%d", r.Range(1, 2), r.Range(2, 4))
+	}
+	for i := 0; i < extra; i++ {
+		sc := siteScenario{MT: r.Intn(2), H: op(), C: op()}
+		// two merge runs exclude each other by their own flag (the second returns at once), and the vacuum gate
+		// (mockMerger) is one per process: such pairs say nothing about the index-directory lock
+		if (sc.H[0] == 'm' || sc.H[0] == 'v') && sc.H[0] == sc.C[0] {
+			sc.C = "f:3"
+		}
+		out = append(out, sc)
+	}
+	return out
 }
